@@ -172,9 +172,355 @@ def splice_stmt(body, stmt, text, before=False):
     return body[:at] + "\n" + text + "\n" + body[at:]
 
 
+
+# ------------------------------------------------------------------------------------------------
+# autotrack: mechanical proof generation for straight-line field-arithmetic bodies
+# ------------------------------------------------------------------------------------------------
+TOK_RE = re.compile(r"\s*(?:(\d[\d_]*)|([A-Za-z_][A-Za-z0-9_]*(?:::[A-Za-z_][A-Za-z0-9_]*)*)|(.))")
+
+
+def _tokenize(text):
+    toks, i = [], 0
+    while i < len(text):
+        m = TOK_RE.match(text, i)
+        if not m or m.end() == i:
+            break
+        if m.group(1):
+            toks.append(("num", m.group(1)))
+        elif m.group(2):
+            toks.append(("id", m.group(2)))
+        elif m.group(3) and not m.group(3).isspace():
+            toks.append(("p", m.group(3)))
+        i = m.end()
+    return toks
+
+
+class _Parser:
+    def __init__(self, toks):
+        self.t, self.i = toks, 0
+
+    def peek(self):
+        return self.t[self.i] if self.i < len(self.t) else ("eof", "")
+
+    def eat(self, kind=None, val=None):
+        k, v = self.peek()
+        if (kind and k != kind) or (val and v != val):
+            raise ExtractError("unsupported construct in tracked body near token %r" % (v,))
+        self.i += 1
+        return v
+
+    def expr(self):
+        n = self.term()
+        while self.peek() in (("p", "+"), ("p", "-")):
+            op = self.eat()
+            r = self.term()
+            n = ("add" if op == "+" else "sub", n, r)
+        return n
+
+    def term(self):
+        n = self.unary()
+        while self.peek() == ("p", "*"):
+            self.eat()
+            n = ("mul", n, self.unary())
+        return n
+
+    def unary(self):
+        if self.peek() == ("p", "-"):
+            self.eat()
+            return ("neg", self.unary())
+        return self.postfix()
+
+    def postfix(self):
+        n = self.primary()
+        while True:
+            if self.peek() == ("p", "."):
+                self.eat()
+                m = self.eat("id")
+                self.eat("p", "(")
+                self.eat("p", ")")
+                if m not in ("double", "square"):
+                    raise ExtractError("unsupported method .%s() in tracked body" % m)
+                n = (m, n)
+            elif self.peek() == ("p", "["):
+                self.eat()
+                idx = self.eat("num")
+                self.eat("p", "]")
+                if n[0] != "name":
+                    raise ExtractError("unsupported indexing in tracked body")
+                n = ("leaf", "%s[%s]" % (n[1], idx))
+            else:
+                return n
+
+    def primary(self):
+        k, v = self.peek()
+        if k == "p" and v == "(":
+            self.eat()
+            n = self.expr()
+            self.eat("p", ")")
+            return n
+        if k == "id":
+            self.eat()
+            if self.peek() == ("p", "(") and (v.endswith("::zero") or v.endswith("::one")):
+                self.eat()
+                self.eat("p", ")")
+                return ("zero",) if v.endswith("::zero") else ("one",)
+            if self.peek() == ("p", "("):
+                if not v.endswith("::new"):
+                    raise ExtractError("unsupported call %s(..) in tracked body" % v)
+                self.eat()
+                c = self.eat("num")
+                self.eat("p", ")")
+                return ("new", c)
+            if v.endswith("::ZERO"):
+                return ("zero",)
+            if v.endswith("::ONE"):
+                return ("one",)
+            return ("name", v)
+        if k == "num":
+            self.eat()
+            return ("numlit", v)
+        raise ExtractError("unsupported token %r in tracked body" % (v,))
+
+
+
+# --- exact polynomial arithmetic used to pre-expand products for the solver -----------------------
+def _p_const(c):
+    return {(): c} if c else {}
+
+
+def _p_var(x):
+    return {(x,): 1}
+
+
+def _p_add(a, b, sign=1):
+    r = dict(a)
+    for m, c in b.items():
+        r[m] = r.get(m, 0) + sign * c
+        if r[m] == 0:
+            del r[m]
+    return r
+
+
+def _p_mul(a, b):
+    r = {}
+    for m1, c1 in a.items():
+        for m2, c2 in b.items():
+            m = tuple(sorted(m1 + m2))
+            r[m] = r.get(m, 0) + c1 * c2
+            if r[m] == 0:
+                del r[m]
+    return r
+
+
+def _p_str(p):
+    if not p:
+        return "0int"
+    parts = []
+    for m in sorted(p):
+        c = p[m]
+        mono = " * ".join(m)
+        if not m:
+            parts.append("(%dint)" % c)
+        elif len(m) == 1:
+            parts.append("(%dint) * %s" % (c, mono))
+        else:
+            parts.append("(%dint) * (%s)" % (c, mono))
+    return "(" + " + ".join(parts) + ")"
+
+
+def _poly_of_text(text):
+    """polynomial of a hand-written target expression (names, integer literals, + - * and parentheses)"""
+    pr = _Parser(_tokenize(text))
+
+    def ev(n):
+        k = n[0]
+        if k == "name":
+            return _p_var(n[1])
+        if k == "numlit":
+            return _p_const(int(n[1].replace("_", "")))
+        if k == "neg":
+            return _p_add({}, ev(n[1]), -1)
+        if k == "add":
+            return _p_add(ev(n[1]), ev(n[2]))
+        if k == "sub":
+            return _p_add(ev(n[1]), ev(n[2]), -1)
+        if k == "mul":
+            return _p_mul(ev(n[1]), ev(n[2]))
+        raise ExtractError("unsupported construct in target polynomial: %s" % (n,))
+    tree = pr.expr()
+    if pr.peek()[0] != "eof":
+        raise ExtractError("cannot parse target polynomial: %s" % text)
+    return ev(tree)
+
+
+def autotrack(body, leaves, finals):
+    """body: `let x = e; ... [e0, e1, ..]` over + - * .double() .square() Self::new(c). Returns the body
+    with generated ghost bookkeeping. Every value gets an integer 'ideal' tN with eqm(v(value), tN)
+    (one congruence lemma per operator node) and an exact canonical polynomial over named monomials with
+    tN == poly: sums are closed by linear arithmetic, each product by one small nonlinear_arith query
+    whose only facts are the two factor polynomials and the monomial definitions. For every output k the
+    hand-written target polynomial finals[k] must expand to the same canonical polynomial."""
+    code = re.sub(r"//[^\n]*", "", body)
+    stmts, depth, cur = [], 0, ""
+    for ch in code:
+        if ch in "([{":
+            depth += 1
+        elif ch in ")]}":
+            depth -= 1
+        if ch == ";" and depth == 0:
+            stmts.append(cur.strip())
+            cur = ""
+        else:
+            cur += ch
+    tail = cur.strip()
+    out = []
+    leafmap = dict(leaves)
+    for spec_leaf, g in leaves:
+        out.append("let ghost %s: int = v(%s);" % (g, spec_leaf))
+    mono_names, counter = {}, [0]
+    var_info = {}    # let-bound variable -> (ideal name, poly)
+
+    def mono(m, sink):
+        if len(m) <= 1:
+            return m[0] if m else None
+        if m not in mono_names:
+            nm = "m_" + "_".join(m)
+            mono_names[m] = nm
+            sink.append("let ghost %s: int = %s;" % (nm, " * ".join(m)))
+        return mono_names[m]
+
+    def pstr(p, sink):
+        if not p:
+            return "0int"
+        parts = []
+        for m in sorted(p):
+            nm = mono(m, sink)
+            parts.append("(%dint)" % p[m] if nm is None else "(%dint) * %s" % (p[m], nm))
+        return "(" + " + ".join(parts) + ")"
+
+    def mono_defs(polys):
+        ds = []
+        for p in polys:
+            for m in p:
+                if len(m) > 1:
+                    ds.append("%s == %s" % (mono_names[m], " * ".join(m)))
+        return sorted(set(ds))
+
+    def fresh(expr, sink):
+        counter[0] += 1
+        nm = "t%d" % counter[0]
+        sink.append("let ghost %s: int = %s;" % (nm, expr))
+        return nm
+
+    def gen(n, sink):
+        """returns (spec term, ideal ghost name, exact polynomial); appends statements to sink"""
+        k = n[0]
+        if k == "leaf":
+            if n[1] not in leafmap:
+                raise ExtractError("tracked body reads %s which is not a declared leaf" % n[1])
+            g = leafmap[n[1]]
+            return n[1], g, _p_var(g)
+        if k == "name":
+            if n[1] in var_info:
+                return n[1], var_info[n[1]][0], var_info[n[1]][1]
+            if n[1] in leafmap:
+                g = leafmap[n[1]]
+                return n[1], g, _p_var(g)
+            raise ExtractError("tracked body uses unknown variable %s" % n[1])
+        if k == "numlit":
+            raise ExtractError("integer literal used as a field element in tracked body")
+        if k in ("new", "zero", "one"):
+            c = {"zero": "0", "one": "1"}.get(k) or n[1].replace("_", "")
+            spec = {"zero": "zero_of()", "one": "one_of()"}.get(k) or "new_of(%su64)" % c
+            t = fresh("%sint" % c, sink)
+            sink.append("proof { %s }" % ({"zero": "lemma_t_zero();", "one": "lemma_t_one();"}.get(k) or "lemma_t_new(%su64);" % c))
+            return spec, t, _p_const(int(c))
+        if k in ("neg", "double", "square"):
+            s1, t1, p1 = gen(n[1], sink)
+            if k == "square":
+                poly = _p_mul(p1, p1)
+                ps, p1s = pstr(poly, sink), pstr(p1, sink)
+                t = fresh("%s * %s" % (t1, t1), sink)
+                sink.append("proof { lemma_t_square(%s, %s); assert(%s * %s == %s) by (nonlinear_arith) requires %s; }" % (
+                    s1, t1, t1, t1, ps, ", ".join(["%s == %s" % (t1, p1s)] + mono_defs([p1, poly]))))
+            else:
+                poly = _p_add({}, p1, -1) if k == "neg" else _p_add(p1, p1)
+                ps = pstr(poly, sink)
+                t = fresh(("0 - %s" if k == "neg" else "2 * %s") % t1, sink)
+                sink.append("proof { lemma_t_%s(%s, %s); assert(%s == %s); }" % (k, s1, t1, t, ps))
+            return "%s_of(%s)" % (k, s1), t, poly
+        s1, t1, p1 = gen(n[1], sink)
+        s2, t2, p2 = gen(n[2], sink)
+        sym = {"add": "+", "sub": "-", "mul": "*"}[k]
+        if k == "mul":
+            poly = _p_mul(p1, p2)
+            ps, p1s, p2s = pstr(poly, sink), pstr(p1, sink), pstr(p2, sink)
+            t = fresh("%s * %s" % (t1, t2), sink)
+            sink.append("proof { lemma_t_mul(%s, %s, %s, %s); assert(%s * %s == %s) by (nonlinear_arith) requires %s; }" % (
+                s1, s2, t1, t2, t1, t2, ps,
+                ", ".join(["%s == %s" % (t1, p1s), "%s == %s" % (t2, p2s)] + mono_defs([p1, p2, poly]))))
+        else:
+            poly = _p_add(p1, p2, 1 if k == "add" else -1)
+            ps = pstr(poly, sink)
+            t = fresh("%s %s %s" % (t1, sym, t2), sink)
+            sink.append("proof { lemma_t_%s(%s, %s, %s, %s); assert(%s == %s); }" % (k, s1, s2, t1, t2, t, ps))
+        return "%s_of(%s, %s)" % (k, s1, s2), t, poly
+
+    for st in stmts:
+        m = re.match(r"let\s+(?:mut\s+)?([A-Za-z_][A-Za-z0-9_]*)\s*=\s*(.*)$", st, re.S)
+        if not m:
+            raise ExtractError("unsupported statement in tracked body: %s" % st[:60])
+        name, ex = m.group(1), m.group(2)
+        pr = _Parser(_tokenize(ex))
+        tree = pr.expr()
+        if pr.peek()[0] != "eof":
+            raise ExtractError("unsupported expression in tracked body: %s" % ex[:60])
+        spec, t, poly = gen(tree, out)   # emitted before the statement: establishes the operators' preconditions
+        out.append("let %s = %s;" % (name, ex))
+        out.append("proof { assert(%s == %s); }" % (name, spec))
+        var_info[name] = (t, poly)
+    if not (tail.startswith("[") and tail.endswith("]")):
+        raise ExtractError("tracked body does not end in an array expression")
+    inner = tail[1:-1]
+    parts, depth, cur = [], 0, ""
+    for ch in inner:
+        if ch in "([{":
+            depth += 1
+        elif ch in ")]}":
+            depth -= 1
+        if ch == "," and depth == 0:
+            parts.append(cur.strip())
+            cur = ""
+        else:
+            cur += ch
+    if cur.strip():
+        parts.append(cur.strip())
+    if len(parts) != len(finals):
+        raise ExtractError("tracked body returns %d outputs, %d targets given" % (len(parts), len(finals)))
+    for k, ex in enumerate(parts):
+        pr = _Parser(_tokenize(ex))
+        tree = pr.expr()
+        if pr.peek()[0] != "eof":
+            raise ExtractError("unsupported output expression in tracked body: %s" % ex[:60])
+        spec, t, poly = gen(tree, out)
+        tpoly = _poly_of_text(finals[k])
+        tps = pstr(tpoly, out)
+        ps = pstr(poly, out)
+        # the hand-written target is expanded by the solver; the body's polynomial was built step by step
+        req = mono_defs([tpoly])
+        out.append("proof { assert(%s == %s) by (nonlinear_arith)%s; assert(%s == %s); assert(%s == %s); assert(eqm(v(%s), %s)); }" % (
+            finals[k], tps, (" requires " + ", ".join(req)) if req else "", t, ps, t, finals[k], spec, finals[k]))
+    out.append(tail)
+    return "\n".join(out)
+
+
 def build_unit(ws, unit_name):
     tpl_path = os.path.join(VERIF, "contracts", "verus", unit_name + ".rs")
-    lines = open(tpl_path).read().split("\n")
+    raw = open(tpl_path).read()
+    def _inc(m):
+        return open(os.path.join(VERIF, "contracts", "verus", m.group(1))).read()
+    raw = re.sub(r"^//@@ include (\S+)\s*$", _inc, raw, flags=re.M)
+    lines = raw.split("\n")
     out, report = [], []
     source, pending = None, None
     src_cache = {}
@@ -190,13 +536,20 @@ def build_unit(ws, unit_name):
                 kv = dict(re.findall(r'(\w+)="((?:[^"\\]|\\.)*)"', d))
                 m = re.search(r"nth=(\d+)", d)
                 pending = {"source": source, "anchor": kv["anchor"], "within": kv.get("within"),
-                           "nth": int(m.group(1)) if m else 1, "rewrites": [], "loops": {}, "after": [], "cur": None}
+                           "nth": int(m.group(1)) if m else 1, "rewrites": [], "loops": {}, "after": [], "cur": None,
+                           "track": None, "finals": {}}
             elif d.startswith("rewrite-re"):
                 m = re.match(r'rewrite-re\s+"((?:[^"\\]|\\.)*)"\s*=>\s*"((?:[^"\\]|\\.)*)"', d)
                 pending["rewrites"].append(("re", m.group(1), m.group(2)))
             elif d.startswith("rewrite"):
                 m = re.match(r'rewrite\s+"((?:[^"\\]|\\.)*)"\s*=>\s*"((?:[^"\\]|\\.)*)"', d)
                 pending["rewrites"].append(("lit", m.group(1).replace('\\"', '"'), m.group(2).replace('\\"', '"')))
+            elif d.startswith("autotrack"):
+                m = re.search(r'leaves="([^"]*)"', d)
+                pending["track"] = [tuple(x.split(":")) for x in m.group(1).split(",") if x]
+            elif d.startswith("final"):
+                m = re.match(r'final\s+(\d+)\s+"([^"]*)"', d)
+                pending["finals"][int(m.group(1))] = m.group(2)
             elif d.startswith("loop"):
                 k = int(d.split()[1])
                 pending["loops"][k] = []
@@ -265,10 +618,13 @@ def build_unit(ws, unit_name):
                     body = body[:b_idx] + "\n" + "\n".join(p["loops"][k]) + "\n" + body[b_idx:]
             for ent in p["after"]:
                 body = splice_stmt(body, ent["stmt"], "\n".join(ent["text"]), ent["before"])
+            if p["track"] is not None:
+                body = autotrack(body, p["track"], p["finals"])
             out.append(ln.replace("/*@@body*/", body))
             report.append({"source": p["source"], "anchor": p["anchor"], "within": p["within"],
                            "body_sha256_16": raw_hash, "rewrites": applied,
-                           "loop_annotations": sorted(p["loops"]), "spliced_proof_blocks": len(p["after"])})
+                           "loop_annotations": sorted(p["loops"]), "spliced_proof_blocks": len(p["after"]),
+                           "autotrack": bool(p["track"])})
             pending = None
             i += 1
             continue
